@@ -162,6 +162,10 @@ func jobSyncMonitor(res *Result, m *mJob, cfg jsCfg, ops []jsOp, obs []jsObs, js
 		}
 		if o.Kind == "sync" {
 			cj := ob.CachedJob
+			createdBefore := map[string]int64{}
+			for hh, v := range created {
+				createdBefore[hh] = v
+			}
 			for _, a := range ob.Actions {
 				switch a.Verb {
 				case "create":
@@ -187,6 +191,31 @@ func jobSyncMonitor(res *Result, m *mJob, cfg jsCfg, ops []jsOp, obs []jsObs, js
 					}
 					if r >= m.MaxAttempts {
 						hit("C08", "C08/exceeds-max-attempts", fmt.Sprintf("op %d: created %s with maxAttempts %d", k, a.Name, m.MaxAttempts))
+					}
+					// "nor for any index once the Job is complete": judged when both caches are current,
+					// on the truth - AnySuccessful is decided once a task of any index has succeeded,
+					// AllSuccessful once an index has used all its attempts without success
+					if !ob.PodLag && !ob.JobLag {
+						decided := ""
+						for _, hh := range m.Hashes {
+							if m.Strategy == "Any" && truthSucceeded[hh] {
+								decided = "index " + hh + " has succeeded (AnySuccessful)"
+							}
+							if m.Strategy != "Any" && hh != h && !truthSucceeded[hh] && createdBefore[hh] >= m.MaxAttempts {
+								live := false
+								for _, p := range prevPods {
+									if ph, _ := splitTaskName(p.Name); ph == hh && podControlled(p) && podAlive(p) {
+										live = true
+									}
+								}
+								if !live {
+									decided = fmt.Sprintf("index %s has used all %d attempts without success (AllSuccessful)", hh, m.MaxAttempts)
+								}
+							}
+						}
+						if decided != "" && len(m.Hashes) > 1 {
+							hit("C08", "C08/create-after-complete", fmt.Sprintf("op %d: created %s although the Job is complete: %s", k, a.Name, decided))
+						}
 					}
 					created[h]++
 					for _, p := range prevPods {
@@ -344,6 +373,21 @@ func jobSyncMonitor(res *Result, m *mJob, cfg jsCfg, ops []jsOp, obs []jsObs, js
 			if jobFinished(a) && !jobFinished(b) {
 				hit("C11", "C11/finished-became-unfinished"+lagSfx(ob), fmt.Sprintf("op %d: phase %s -> %s", k, a.Status.Phase, b.Status.Phase))
 			}
+			// a pass in which an API call failed (server error, or a conflict on a write) must return
+			// an error: only then does the work queue re-add the Job; a swallowed error means the
+			// call is never retried (no write happened, so no event will wake the controller)
+			if o.Kind == "sync" && ob.OK {
+				for _, act := range ob.Actions {
+					if act.Outcome == 3 || (act.Outcome == 2 && strings.HasPrefix(act.Verb, "update")) {
+						hit("C20", "C20/failed-call-not-retried", fmt.Sprintf("op %d: %s %s failed (outcome %d) but the pass reported success: the work queue forgets the Job", k, act.Verb, act.Name, act.Outcome))
+						if act.Verb == "delete" {
+							hit("C12", "C12/failed-delete-not-retried", fmt.Sprintf("op %d: deleting %s failed but the pass reported success: nothing retries the delete, the task stays alive", k, act.Name))
+							hit("C13", "C13/failed-delete-not-retried", fmt.Sprintf("op %d: deleting %s failed but the pass reported success: nothing retries the delete", k, act.Name))
+						}
+						break
+					}
+				}
+			}
 			// a create answered AlreadyExists by a Pod that is the Job's own but not yet in the Pod
 			// cache (left by an earlier pass whose status write failed): nothing can be decided
 			// yet - the pass must end there with an error and be retried
@@ -492,6 +536,15 @@ func jobSyncMonitor(res *Result, m *mJob, cfg jsCfg, ops []jsOp, obs []jsObs, js
 					if p.Name == r.Name {
 						hit("C13", "C13/job-gone-before-tasks"+lagSfx(ob), fmt.Sprintf("op %d: the Job was removed while its task %s still exists", k, p.Name))
 					}
+				}
+			}
+		}
+		// ... and the pass that lets the Job go must not have created a task in the same breath
+		// (the new Pod is in no cache and in no status: nobody will ever stop it)
+		if prevJob != nil && ob.Job == nil && o.Kind == "sync" {
+			for _, act := range ob.Actions {
+				if act.Verb == "create" && act.Outcome == 0 {
+					hit("C13", "C13/job-removed-by-the-pass-that-created-a-task", fmt.Sprintf("op %d: the pass created %s and removed the Job's finalizer; the Job is gone, the Pod runs unattended", k, act.Name))
 				}
 			}
 		}
